@@ -19,8 +19,9 @@ Abstractions (each is an assumption of the tie, listed in checks/C17.py):
   * signatures are ideal: a descriptor carries the set of keys that produced a valid signature
     (`signers`) and a flag `sigValid` that is false when some attached signature does not verify;
   * staking accounts are addressed by `Addr` (entity key or runtime id, `staking.NewAddress` /
-    `NewRuntimeAddress` idealised as injective); stake is always sufficient (zero thresholds), so a
-    claim is a member of a set;
+    `NewRuntimeAddress` idealised as injective); an account has an active escrow balance and a stake
+    accumulator (claim ↦ list of global thresholds, `staking/api/api.go:900-1130`); per-runtime
+    threshold constants (`Runtime.Staking.Thresholds`) are not modelled (zero);
   * descriptor fields without influence on authority or indexes (addresses, software version, TEE
     capabilities, deployments, admission policies) are not modelled; the harness generates
     descriptors that pass those checks.
@@ -82,14 +83,28 @@ def Runtime.stakingAddr (r : Runtime) : Option Addr :=
   | .runtime => some (.rt r.id)
   | .consensus => none
 
+/-- `registry.NodeStatus`: `ExpirationProcessed`, `FreezeEndTime` (0 = not frozen). -/
 structure Status where
   expirationProcessed : Bool
+  freezeEndTime : Nat := 0
 deriving DecidableEq, Repr, Inhabited
+
+/-- `staking.ThresholdKind` (registry-relevant kinds). -/
+inductive Thr | entity | nodeValidator | nodeCompute | nodeObserver | nodeKeyManager | rtCompute | rtKeyManager
+deriving DecidableEq, Repr, Inhabited
+
+def Thr.idx : Thr → Nat
+  | .entity => 0 | .nodeValidator => 1 | .nodeCompute => 2 | .nodeObserver => 3
+  | .nodeKeyManager => 4 | .rtCompute => 5 | .rtKeyManager => 6
 
 structure Params where
   maxNodeExpiration : Nat
   debondingInterval : Nat
+  /-- `staking.ConsensusParameters.Thresholds`, indexed by `Thr.idx` (missing = 0). -/
+  thresholds : List Nat := []
 deriving DecidableEq, Repr, Inhabited
+
+def Params.thr (p : Params) (t : Thr) : Nat := p.thresholds.getD t.idx 0
 
 /-! ### state -/
 
@@ -112,13 +127,15 @@ structure State where
   runtimes : Map RtId Runtime
   /-- `runtimeByEntityKeyFmt`: set of (entity, runtime id). -/
   rtByEntity : Map (Key × RtId) Unit
-  /-- `Escrow.StakeAccumulator.Claims` of all accounts: set of (account, claim). -/
-  claims : Map (Addr × Claim) Unit
+  /-- `Escrow.StakeAccumulator.Claims` of all accounts: (account, claim) ↦ thresholds. -/
+  claims : Map (Addr × Claim) (List Thr)
+  /-- `Escrow.Active.Balance` of the accounts (missing = 0). -/
+  balances : Map Addr Nat
 deriving Repr, Inhabited
 
 def init (p : Params) : State :=
   { params := p, epoch := 0, entities := [], nodes := [], byEntity := [], consAddr := [],
-    keyMap := [], status := [], runtimes := [], rtByEntity := [], claims := [] }
+    keyMap := [], status := [], runtimes := [], rtByEntity := [], claims := [], balances := [] }
 
 /-! ### lookups of `ImmutableState` -/
 
@@ -208,6 +225,10 @@ inductive Res
   | entityHasRuntimes
   | forbidden
   | runtimeUpdateNotAllowed
+  | insufficientStake
+  | noSuchNode
+  | badEntityForNode
+  | nodeCannotBeUnfrozen
   | panicked
   | fatal
 deriving DecidableEq, Repr, Inhabited
@@ -225,6 +246,10 @@ def Res.toString : Res → String
   | .entityHasRuntimes => "entity-has-runtimes"
   | .forbidden => "forbidden"
   | .runtimeUpdateNotAllowed => "runtime-update-not-allowed"
+  | .insufficientStake => "insufficient-stake"
+  | .noSuchNode => "no-such-node"
+  | .badEntityForNode => "bad-entity-for-node"
+  | .nodeCannotBeUnfrozen => "node-cannot-be-unfrozen"
   | .panicked => "panic"
   | .fatal => "fatal"
 
@@ -249,15 +274,52 @@ def verifyEntityArgs (se : SignedEntity) : Option Res :=
   else if hasDup se.nodes then some (.invalidArgument "duplicate-nodes")
   else none
 
-/-- `registerEntity` (DeliverTx). -/
-def regEntity (s : State) (txSigner : Key) (se : SignedEntity) : State × Res :=
+/-! ### stake accumulator (staking/api/api.go:900-1130, apps/staking/state/accumulator.go) -/
+
+def sumThr (p : Params) (ths : List Thr) : Nat := ths.foldl (fun acc t => acc + p.thr t) 0
+
+/-- `StakeAccumulator.TotalClaims(thresholds, exclude)` of account `a`. -/
+def totalClaims (p : Params) (claims : Map (Addr × Claim) (List Thr)) (a : Addr) (exclude : Option Claim) : Nat :=
+  claims.foldl (fun acc e => if e.1.1 = a ∧ some e.1.2 ≠ exclude then acc + sumThr p e.2 else acc) 0
+
+def balanceOf (s : State) (a : Addr) : Nat := (s.balances.get a).getD 0
+
+/-- `EscrowAccount.AddStakeClaim` succeeds: the other claims of the account plus the new thresholds
+are covered by the active escrow balance. -/
+def canAddClaim (s : State) (claims : Map (Addr × Claim) (List Thr)) (a : Addr) (c : Claim) (ths : List Thr) : Bool :=
+  decide (totalClaims s.params claims a (some c) + sumThr s.params ths ≤ balanceOf s a)
+
+/-- `EscrowAccount.CheckStakeClaims`. -/
+def claimsCovered (s : State) (claims : Map (Addr × Claim) (List Thr)) (a : Addr) : Bool :=
+  decide (totalClaims s.params claims a none ≤ balanceOf s a)
+
+/-- `StakeThresholdsForNode` (per-runtime constants not modelled): validator threshold, then for every
+distinct runtime of the node the thresholds of its key-manager / compute / observer roles. -/
+def nodeThr (n : Node) : List Thr :=
+  (if 8 &&& n.roles != 0 then [Thr.nodeValidator] else []) ++
+  (n.runtimes.eraseDups.flatMap fun _ =>
+    (if 4 &&& n.roles != 0 then [Thr.nodeKeyManager] else []) ++
+    (if 1 &&& n.roles != 0 then [Thr.nodeCompute] else []) ++
+    (if 2 &&& n.roles != 0 then [Thr.nodeObserver] else []))
+
+/-- `StakeThresholdsForRuntime`. -/
+def rtThr (rt : Runtime) : List Thr :=
+  match rt.kind with
+  | .compute => [.rtCompute]
+  | .keymanager => [.rtKeyManager]
+
+/-- The state after a successful `registerEntity`. -/
+def regEntityOk (s : State) (se : SignedEntity) : State :=
+  { s with claims := s.claims.set (.ent se.id, .entity) [Thr.entity], entities := s.entities.set se.id se.nodes }
+
+/-- `registerEntity`; `gen` = InitChain (no transaction, hence no transaction signer). -/
+def regEntity (gen : Bool) (s : State) (txSigner : Key) (se : SignedEntity) : State × Res :=
   match verifyEntityArgs se with
   | some e => (s, e)
   | none =>
-    if se.signer ≠ txSigner then (s, .incorrectTxSigner) else
-    ({ s with
-       claims := s.claims.set (.ent se.id, .entity) ()
-       entities := s.entities.set se.id se.nodes }, .ok)
+    if !gen ∧ se.signer ≠ txSigner then (s, .incorrectTxSigner) else
+    if !canAddClaim s s.claims (.ent se.id) .entity [Thr.entity] then (s, .insufficientStake) else
+    (regEntityOk s se, .ok)
 
 /-- `deregisterEntity` (DeliverTx): the entity is the transaction signer. -/
 def deregEntity (s : State) (txSigner : Key) : State × Res :=
@@ -370,13 +432,21 @@ def verifyNodeUpdate (s : State) (cur n : Node) : Option Res :=
   else if !hasRoles n.roles cur.roles then some .nodeUpdateNotAllowed
   else none
 
-/-- `ResumeRuntime` for every runtime the node registers for (stake always sufficient). -/
-def resumeRuntimes (rts : Map RtId Runtime) : List RtId → Map RtId Runtime
+/-- `ResumeRuntime` for every runtime the node registers for, provided `ok rt` (the runtime's staking
+account covers its claims, or the runtime is consensus-governed). -/
+def resumeRuntimes (ok : Runtime → Bool) (rts : Map RtId Runtime) : List RtId → Map RtId Runtime
   | [] => rts
   | r :: rs =>
     match rts.get r with
-    | some rt => resumeRuntimes (if rt.suspended then rts.set r { rt with suspended := false } else rts) rs
-    | none => resumeRuntimes rts rs
+    | some rt => resumeRuntimes ok (if rt.suspended ∧ ok rt then rts.set r { rt with suspended := false } else rts) rs
+    | none => resumeRuntimes ok rts rs
+
+/-- The stake condition for resuming `rt` (transactions.go:443-457), with the claims as held by the
+stake accumulator cache (i.e. including the node claim just added). -/
+def mayResume (s : State) (claims : Map (Addr × Claim) (List Thr)) (rt : Runtime) : Bool :=
+  match rt.stakingAddr with
+  | none => true
+  | some a => claimsCovered s claims a
 
 /-- The registration creates the node or revives an expired one (`isNewNode || isExpiredNode`). -/
 def isFresh (s : State) (existing : Option Node) : Bool :=
@@ -387,7 +457,7 @@ def isFresh (s : State) (existing : Option Node) : Bool :=
 /-- Status of a new / revived node: `ExpirationProcessed` reset, other fields kept. -/
 def freshStatus : Option Status → Status
   | some x => { x with expirationProcessed := false }
-  | none => { expirationProcessed := false }
+  | none => { expirationProcessed := false, freezeEndTime := 0 }
 
 /-- Node status after a successful registration: reset when the node is new or was expired. -/
 def regNodeStatus (s : State) (existing : Option Node) (n : Node) (st : Option Status) : Map Key Status :=
@@ -397,10 +467,11 @@ def regNodeStatus (s : State) (existing : Option Node) (n : Node) (st : Option S
 def regNodeOk (ord : Order) (s : State) (n : Node) : State :=
   let existing := s.nodes.get n.id
   let s1 := setNode ord s existing n
+  let claims := s1.claims.set (.ent n.entity, .node n.id) (nodeThr n)
   { s1 with
     status := regNodeStatus s existing n (s.status.get n.id)
-    runtimes := resumeRuntimes s1.runtimes n.runtimes
-    claims := s1.claims.set (.ent n.entity, .node n.id) () }
+    runtimes := resumeRuntimes (mayResume s claims) s1.runtimes n.runtimes
+    claims := claims }
 
 /-- `VerifyNodeUpdate` when the node exists. -/
 def verifyExisting (s : State) (n : Node) : Option Res :=
@@ -408,17 +479,18 @@ def verifyExisting (s : State) (n : Node) : Option Res :=
   | some cur => verifyNodeUpdate s cur n
   | none => none
 
-/-- `registerNode` (DeliverTx). -/
-def regNode (ord : Order) (s : State) (txSigner : Key) (sn : SignedNode) : State × Res :=
+/-- `registerNode`; `gen` = InitChain (no transaction signer, expired descriptors admitted). -/
+def regNode (gen : Bool) (ord : Order) (s : State) (txSigner : Key) (sn : SignedNode) : State × Res :=
   match s.entities.get sn.node.entity with
   | none => (s, .noSuchEntity)
   | some entNodes =>
   match verifyNodeArgs s entNodes sn with
   | some e => (s, e)
   | none =>
-  if txSigner ≠ sn.node.id then (s, .incorrectTxSigner) else
-  if sn.node.expiration ≤ s.epoch then (s, .nodeExpired) else
-  -- (stake claim added to the transaction overlay here: always sufficient)
+  if !gen ∧ txSigner ≠ sn.node.id then (s, .incorrectTxSigner) else
+  if !gen ∧ sn.node.expiration ≤ s.epoch then (s, .nodeExpired) else
+  -- the stake claim is added (to the transaction overlay) before the update rules are checked
+  if !canAddClaim s s.claims (.ent sn.node.entity) (.node sn.node.id) (nodeThr sn.node) then (s, .insufficientStake) else
   match verifyExisting s sn.node with
   | some e => (s, e)
   | none =>
@@ -456,7 +528,7 @@ stored (keeping the suspended flag), owner index moved if the entity changed. -/
 def regRuntimeOk (s : State) (rt : Runtime) (addr : Addr) : State :=
   let existing := s.runtimes.get rt.id
   let suspended := match existing with | some cur => cur.suspended | none => false
-  let claims := s.claims.set (addr, .runtime rt.id) ()
+  let claims := s.claims.set (addr, .runtime rt.id) (rtThr rt)
   let claims := match existing with
     | some cur => match cur.stakingAddr with
       | some oldAddr => if oldAddr ≠ addr then claims.del (oldAddr, .runtime rt.id) else claims
@@ -471,22 +543,65 @@ def regRuntimeOk (s : State) (rt : Runtime) (addr : Addr) : State :=
      runtimes := s.runtimes.set rt.id { rt with suspended := suspended }
      rtByEntity := rtByEntity }
 
+/-- Consensus-governed runtime (genesis only): descriptor and owner index written, no stake claim. -/
+def regRuntimeNoClaim (s : State) (rt : Runtime) : State :=
+  let existing := s.runtimes.get rt.id
+  let suspended := match existing with | some cur => cur.suspended | none => false
+  let rtByEntity := match existing with
+    | some cur => if cur.entity = rt.entity then s.rtByEntity
+                  else (s.rtByEntity.del (cur.entity, rt.id)).set (rt.entity, rt.id) ()
+    | none => s.rtByEntity.set (rt.entity, rt.id) ()
+  { s with
+     runtimes := s.runtimes.set rt.id { rt with suspended := suspended }
+     rtByEntity := rtByEntity }
+
+/-- The caller check of `registerRuntime` (transactions.go:667-706): the caller must be the staking
+address of the descriptor that governs the runtime before the change. -/
+def callerCheck (s : State) (caller : Addr) (rt : Runtime) : Option Res :=
+  match (runtimeToCheck s rt).stakingAddr with
+  | none => some .forbidden
+  | some expected => if caller ≠ expected then some (wrongCaller (runtimeToCheck s rt).gov) else none
+
 /-- `registerRuntime` with caller address `caller` (transaction signer's address, or the runtime's
-own address for runtime messages).  Descriptor validity beyond governance is not modelled. -/
-def regRuntime (s : State) (caller : Addr) (rt : Runtime) : State × Res :=
-  -- VerifyRuntime: governance model must be enabled (entity, runtime); runtime governance needs compute
-  if rt.gov = .consensus then (s, .forbidden) else
+own address for runtime messages); `gen` = InitChain (no caller check, consensus governance admitted).
+Descriptor validity beyond governance is not modelled. -/
+def regRuntime (gen : Bool) (s : State) (caller : Addr) (rt : Runtime) : State × Res :=
+  -- VerifyRuntime: runtime governance needs a compute runtime
   if rt.gov = .runtime ∧ rt.kind ≠ .compute then (s, .invalidArgument "runtime-governance") else
   match verifyRuntimeUpdate (s.runtimes.get rt.id) rt with
   | some e => (s, e)
   | none =>
-  match (runtimeToCheck s rt).stakingAddr with
-  | none => (s, .forbidden)
-  | some expected =>
-  if caller ≠ expected then (s, wrongCaller (runtimeToCheck s rt).gov) else
+  match (if gen then none else callerCheck s caller rt) with
+  | some e => (s, e)
+  | none =>
   match rt.stakingAddr with
-  | none => (s, .forbidden)
-  | some addr => (regRuntimeOk s rt addr, .ok)
+  | none => (regRuntimeNoClaim s rt, .ok)
+  | some addr =>
+    if !canAddClaim s s.claims addr (.runtime rt.id) (rtThr rt) then (s, .insufficientStake)
+    else (regRuntimeOk s rt addr, .ok)
+
+/-! ### node status: freezing and unfreezing (transactions.go:502-575) -/
+
+/-- `unfreezeNode` (DeliverTx). -/
+def unfreezeNode (s : State) (txSigner : Key) (id : Key) : State × Res :=
+  match s.nodes.get id with
+  | none => (s, .noSuchNode)
+  | some n =>
+    if txSigner ≠ n.entity then (s, .badEntityForNode) else
+    match s.status.get id with
+    | none => (s, .noSuchNode)
+    | some st =>
+      if st.freezeEndTime > s.epoch then (s, .nodeCannotBeUnfrozen)
+      else ({ s with status := s.status.set id { st with freezeEndTime := 0 } }, .ok)
+
+/-- Environment: a node is frozen until epoch `until_` (slashing writes the status record). -/
+def freezeNode (s : State) (id : Key) (until_ : Nat) : State :=
+  match s.status.get id with
+  | none => s
+  | some st => { s with status := s.status.set id { st with freezeEndTime := until_ } }
+
+/-- Environment: the active escrow balance of an account changes (delegation, reclaim, slashing). -/
+def setBalance (s : State) (a : Addr) (v : Nat) : State := { s with balances := s.balances.set a v }
 
 /-! ### epoch transition (registry.go:173-273) -/
 
@@ -495,7 +610,7 @@ def maxU64 : Nat := 18446744073709551615
 structure ExpAcc where
   s : State
   /-- claims as held by the stake accumulator cache (committed at the end) -/
-  claims : Map (Addr × Claim) Unit
+  claims : Map (Addr × Claim) (List Thr)
   ok : Bool
 
 /-- Set `ExpirationProcessed` on the node's status unless it is already set. -/
@@ -538,17 +653,62 @@ inductive Op
   | deregEntity (txSigner : Key)
   | regNode (txSigner : Key) (sn : SignedNode)
   | regRuntime (caller : Addr) (rt : Runtime)
+  | unfreeze (txSigner : Key) (id : Key)
   | epoch (e : Nat)
+  /-- environment: slashing freezes a node -/
+  | freeze (id : Key) (until_ : Nat)
+  /-- environment: an escrow balance changes -/
+  | setBalance (a : Addr) (v : Nat)
 deriving Repr, Inhabited
 
 def step (ord : Order) (s : State) : Op → State × Res
-  | .regEntity t se => regEntity s t se
+  | .regEntity t se => regEntity false s t se
   | .deregEntity t => deregEntity s t
-  | .regNode t sn => regNode ord s t sn
-  | .regRuntime c rt => regRuntime s c rt
+  | .regNode t sn => regNode false ord s t sn
+  | .regRuntime c rt => regRuntime false s c rt
+  | .unfreeze t id => unfreezeNode s t id
   | .epoch e => epochTransition s e
+  | .freeze id u => (freezeNode s id u, .ok)
+  | .setBalance a v => (setBalance s a v, .ok)
 
 def run (ord : Order) (s : State) (ops : List Op) : State := ops.foldl (fun s op => (step ord s op).1) s
+
+/-! ### InitChain (apps/registry/genesis.go) -/
+
+structure Genesis where
+  entities : List SignedEntity
+  runtimes : List Runtime
+  suspendedRuntimes : List Runtime
+  nodes : List SignedNode
+  statuses : List (Key × Status)
+deriving Repr, Inhabited
+
+/-- Run the steps in order, stop at the first error. -/
+def runUntilErr : List (State → State × Res) → State → State × Res
+  | [], s => (s, .ok)
+  | f :: fs, s =>
+    match f s with
+    | (s', .ok) => runUntilErr fs s'
+    | (s', e) => (s', e)
+
+/-- `SuspendRuntime`. -/
+def suspendRuntime (s : State) (r : RtId) : State × Res :=
+  match s.runtimes.get r with
+  | some rt => if rt.suspended then (s, .noSuchRuntime)
+               else ({ s with runtimes := s.runtimes.set r { rt with suspended := true } }, .ok)
+  | none => (s, .noSuchRuntime)
+
+/-- `Application.InitChain`: entities, key-manager runtimes, compute runtimes, suspended runtimes,
+nodes, node statuses — each through the same handlers as transactions, in genesis mode. -/
+def initChain (ord : Order) (s : State) (g : Genesis) : State × Res :=
+  runUntilErr
+    (g.entities.map (fun se s => regEntity true s 0 se) ++
+     (g.runtimes.filter (·.kind = .keymanager)).map (fun rt s => regRuntime true s (.ent 0) rt) ++
+     (g.runtimes.filter (·.kind = .compute)).map (fun rt s => regRuntime true s (.ent 0) rt) ++
+     g.suspendedRuntimes.flatMap (fun rt => [fun s => regRuntime true s (.ent 0) rt, fun s => suspendRuntime s rt.id]) ++
+     g.nodes.map (fun sn s => regNode true ord s 0 sn) ++
+     g.statuses.map (fun p s => ({ s with status := s.status.set p.1 p.2 }, Res.ok)))
+    s
 
 /-! ### executable invariant -/
 
@@ -617,37 +777,41 @@ def recordsB (s : State) : Bool :=
     | none => true
     | some rt => rt.id == r)
 
-/-- The claim `(a, c)` is implied by the currently registered entities, nodes and runtimes. -/
-def impliedB (s : State) (a : Addr) (c : Claim) : Bool :=
+/-- The claim `(a, c)` with thresholds `ths` is implied by the currently registered entities, nodes
+and runtimes (account, claim name *and* threshold list). -/
+def impliedB (s : State) (a : Addr) (c : Claim) (ths : List Thr) : Bool :=
   match c with
   | .entity => match a with
-    | .ent e => s.entities.has e
+    | .ent e => s.entities.has e && ths == [Thr.entity]
     | .rt _ => false
   | .node id => match s.nodes.get id with
-    | some n => decide (a = .ent n.entity)
+    | some n => decide (a = .ent n.entity) && ths == nodeThr n
     | none => false
   | .runtime r => match s.runtimes.get r with
-    | some rt => decide (rt.stakingAddr = some a)
+    | some rt => decide (rt.stakingAddr = some a) && ths == rtThr rt
     | none => false
 
-/-- Recorded claims are exactly the implied ones. -/
+/-- Recorded claims (with their thresholds) are exactly the implied ones. -/
 def claimsB (s : State) : Bool :=
-  (s.claims.keys.all fun p => impliedB s p.1 p.2) &&
-  (s.entities.keys.all fun e => s.claims.has (.ent e, .entity)) &&
+  (s.claims.keys.all fun p =>
+    match s.claims.get p with
+    | some ths => impliedB s p.1 p.2 ths
+    | none => true) &&
+  (s.entities.keys.all fun e => s.claims.get (.ent e, .entity) == some [Thr.entity]) &&
   (s.nodes.keys.all fun id =>
     match s.nodes.get id with
     | none => true
-    | some n => s.claims.has (.ent n.entity, .node id)) &&
+    | some n => s.claims.get (.ent n.entity, .node id) == some (nodeThr n)) &&
   (s.runtimes.keys.all fun r =>
     match s.runtimes.get r with
     | none => true
     | some rt => match rt.stakingAddr with
-      | some a => s.claims.has (a, .runtime r)
+      | some a => s.claims.get (a, .runtime r) == some (rtThr rt)
       | none => true)
 
-/-- Every registered node has a status record and vice versa. -/
-def statusB (s : State) : Bool :=
-  (s.nodes.keys.all fun id => s.status.has id) && (s.status.keys.all fun id => s.nodes.has id)
+/-- Every registered node has a status record.  (The converse is not required: genesis may carry
+status records of nodes that are not registered.) -/
+def statusB (s : State) : Bool := s.nodes.keys.all fun id => s.status.has id
 
 /-- The index part of the invariant (what `F2` breaks). -/
 def indexInvB (s : State) : Bool :=
